@@ -309,3 +309,84 @@ func runOakBoundaryScenario(r *mon.Run, stream uint64) {
 	r.Count("reorgs_observed", a.Reorgs)
 	r.Distinct(fmt.Sprintf("oak/%d/%d", stream, forkAt))
 }
+
+// runHeavyShortScenario: on a network with a real difficulty the heaviest chain
+// need not be the longest. Branch A is mined fast (its difficulty climbs 0.4 %
+// per block), branch B slowly (its difficulty falls), so that a shorter A
+// outweighs a longer B. The node must follow work, not height - in both
+// directions of submission and through both submission paths.
+func runHeavyShortScenario(r *mon.Run, stream uint64) {
+	rng := r.RNG(stream)
+	p := chainlab.RandomParams("v2only", rng)
+	p.HiDiff = true
+	env := chainlab.NewEnv(p)
+	t := chainlab.NewTree(env, rng)
+	cs := chainCase{Kind: "heaviest-is-not-longest", Stream: stream, Params: p}
+	trunk := t.Root
+	for i := 0; i < 4+rng.IntN(5); i++ {
+		trunk = t.Extend(trunk, chainlab.Profile{MaxTxns: 2})
+	}
+	la := 30 + rng.IntN(12)
+	lb := la + 1 + rng.IntN(3)
+	a, b := trunk, trunk
+	var pa, pb []*chainlab.Node
+	iv := env.Net.BlockInterval
+	for i := 0; i < la; i++ {
+		a = t.ExtendEmpty(a, a.Block.Timestamp.Add(iv/3))
+		pa = append(pa, a)
+	}
+	for i := 0; i < lb; i++ {
+		b = t.ExtendEmpty(b, b.Block.Timestamp.Add(iv*3))
+		pb = append(pb, b)
+	}
+	if !a.ChainValid || !b.ChainValid {
+		r.Inconclusive("generator built an invalid long branch: " + a.Err + b.Err)
+		return
+	}
+	if !(a.Height < b.Height && a.L.State.SufficientlyHeavierThan(b.L.State)) {
+		r.Count("heavy_short:shape_not_reached", 1)
+		return
+	}
+	node, err := chainlab.NewTestNode(env, nil)
+	if err != nil {
+		r.Inconclusive(err.Error())
+		return
+	}
+	au := chainlab.NewAuditor(t, node)
+	step := func(batch []*chainlab.Node, validated bool) bool {
+		var fs []chainlab.Finding
+		if validated {
+			_, fs = au.SubmitValidated(batch)
+		} else {
+			_, fs = au.Submit(batch)
+		}
+		r.Count("calls_audited", 1)
+		if len(fs) > 0 {
+			reportFindings(r, cs, nil, au, fs)
+			return false
+		}
+		return true
+	}
+	if !step(trunk.PathFromGenesis(), false) {
+		return
+	}
+	first, second := pb, pa // the longer, lighter branch first
+	if rng.IntN(3) == 0 {
+		first, second = pa, pb // or the heavy one first: the longer one must then be ignored
+	}
+	if !step(first, rng.IntN(2) == 0) {
+		return
+	}
+	// the second branch in two pieces
+	cut := 1 + rng.IntN(len(second)-1)
+	if !step(second[:cut], false) || !step(second[cut:], rng.IntN(2) == 0) {
+		return
+	}
+	if au.Tip != a {
+		r.Violation("heaviest-not-adopted", fmt.Sprintf("the node is on node %d (height %d), the heaviest valid chain ends at node %d (height %d)", au.Tip.Idx, au.Tip.Height, a.Idx, a.Height), cs, nil)
+		return
+	}
+	r.Eval()
+	r.Count("heaviest_shorter_than_longest_histories", 1)
+	r.Distinct(fmt.Sprintf("heavyshort/%d/%d/%d", stream, la, lb))
+}
